@@ -1162,7 +1162,9 @@ def replay(path: str) -> int:
         x = run_cli_case(c)
     finally:
         shutil.rmtree(tmp, ignore_errors=True)
-    print("replay: python -m cdd gen %s -> rc=%s %s" % (" ".join(cli_args(c, c.get("json_basename") or "inp.py", "out.py", "imps.py" if c.get("imports_file") else None)),
+    if c.get("out_spelling"):
+        print("replay: HOME = cwd = a temp dir holding models.py (sentinel), sub/, link.py -> models.py%s" % ("; {abs} = that dir" if "{abs}" in c["out_spelling"] else ""))
+    print("replay: python -m cdd gen %s -> rc=%s %s" % (" ".join(cli_args(c, c.get("json_basename") or "inp.py", c.get("out_spelling") or "out.py", "imps.py" if c.get("imports_file") else None)),
                                                        x.get("rc"), x.get("exc") or ""))
     fails = oracle(c, x)
     for sig, what in fails:
